@@ -265,6 +265,10 @@ class Interp:
             closure = None
             if fi.parent is not None:
                 closure = it._closure_env_for(fi.parent)
+            if it._effective_decorators(fi) and fi.qualname not in it.opaque:
+                # the entry point is what its decorators make of it
+                kw = {k: v for k, v in bound.items() if k != fi.vararg}
+                return it.call(FuncV(fi, closure, sv, fi.cls), [], kw, fi.node, None)
             return it._exec_function(fi, bound, sv, closure, fi.cls)
 
         return self.explore(run)
@@ -1135,6 +1139,10 @@ class Interp:
             m = base.cls.lookup(attr)
             if m is not None:
                 owner = next(c for c in base.cls.mro() if attr in c.methods)
+                decos = {ast.unparse(d.func if isinstance(d, ast.Call) else d) for d in m.node.decorator_list}
+                if decos & {"property", "functools.cached_property", "cached_property"}:
+                    # reading a property runs its getter
+                    return self.call(FuncV(m, None, base, owner, raw=True), [], {}, node or m.node, None)
                 return FuncV(m, None, base, owner)
             for c in base.cls.mro():
                 if attr in c.nested:
@@ -1414,7 +1422,33 @@ class Interp:
                     raise AnalysisError(f"{fi.qualname}: missing argument {p} at line {getattr(node, 'lineno', 0)}")
         return bound
 
+    TRANSPARENT_DECORATORS = {
+        "staticmethod", "classmethod", "property", "abstractmethod", "abc.abstractmethod", "overload", "typing.overload",
+        "functools.lru_cache", "lru_cache", "functools.cache", "cache", "functools.wraps", "np.vectorize", "numpy.vectorize",
+        "dataclass", "dataclasses.dataclass", "final", "typing.final", "override", "typing.override",
+    }
+
+    def _effective_decorators(self, fi):
+        out = []
+        for d in getattr(fi.node, "decorator_list", []):
+            name = ast.unparse(d.func if isinstance(d, ast.Call) else d)
+            if name not in self.TRANSPARENT_DECORATORS:
+                out.append(d)
+        return out
+
     def call(self, callee, args, kwargs, node, env):
+        if isinstance(callee, FuncV) and not callee.raw:
+            decos = self._effective_decorators(callee.info)
+            if decos and callee.info.qualname not in self.opaque and callee.info.qualname not in self.stubs:
+                # a decorated function is what its decorators make of it: apply them (innermost first) to the raw
+                # function and call the result, so that a wrapper's effect on arguments and results is interpreted
+                fi0 = callee.info
+                target = FuncV(fi0, callee.env, None, callee.owner, raw=True)
+                denv = Env(None, fi0.module, None)
+                for d in reversed(decos):
+                    target = self.call(self.eval(d, denv), [target], {}, node, env)
+                pre = [callee.self_val] if callee.self_val is not None else []
+                return self.call(target, pre + list(args), kwargs, node, env)
         if isinstance(callee, FuncV):
             fi = callee.info
             has_self = callee.self_val is not None or (fi.cls is not None and fi.params[:1] == ["cls"])
@@ -1972,6 +2006,12 @@ def _h_operator(it, args, kwargs, bound, node, qual):
     return None
 
 
+def _h_wraps(it, args, kwargs, bound, node, qual):
+    """functools.wraps(f) -> a decorator that returns its argument (metadata only)"""
+    ident = ast.parse("lambda _wrapped: _wrapped", mode="eval").body
+    return LambdaV(ident, None, None)
+
+
 def _h_partial(it, args, kwargs, bound, node, qual):
     if args and isinstance(args[0], (FuncV, LambdaV, PartialV, ClassV)):
         return PartialV(args[0], list(args[1:]), dict(kwargs))
@@ -2118,6 +2158,7 @@ _EXT_HANDLERS = {
     "hasattr": _h_hasattr,
     "getattr": _h_getattr,
     "functools.partial": _h_partial,
+    "functools.wraps": _h_wraps,
     **{"operator." + k: _h_operator for k in ("gt", "lt", "ge", "le", "eq", "ne", "is_", "is_not", "add", "sub", "mul", "truediv", "pow", "neg")},
     "setattr": _h_setattr,
     "delattr": _h_delattr,
